@@ -38,7 +38,7 @@ FoldOK(g, ms, cs) ==       \* [ok, g, ms]
   ELSE LET r == GStep(g, Head(cs)) IN
        IF ~r.ok THEN [ok |-> FALSE, g |-> g, ms |-> ms]
        ELSE LET m1 == RunPhase(r.bytes, ms) IN
-            IF ~m1.ok \/ ~Rel(r.g, m1.st, 0, FALSE) THEN [ok |-> FALSE, g |-> r.g, ms |-> m1.st]
+            IF ~m1.ok \/ ~Rel(r.g, m1.st) THEN [ok |-> FALSE, g |-> r.g, ms |-> m1.st]
             ELSE FoldOK(r.g, m1.st, Tail(cs))
 NoSymbols(p) == TRUE
 CheckSpec(i) ==
